@@ -1,7 +1,7 @@
 """C03 - timelines are canonical (sorted, disjoint, non-adjacent), on built and on derived graphs."""
 import gen
 from props.base import PropBase, bigio_case, with_bigio, tup
-from props.graphcommon import state_case, known_nodes, has_probes, Truth, alias_phase, alias_oracle, latest_ends, ALIAS_SRC
+from props.graphcommon import run_cutting_window, state_case, known_nodes, has_probes, Truth, alias_phase, alias_oracle, latest_ends, ALIAS_SRC
 from props.suboracles import o_canon
 
 
@@ -43,9 +43,12 @@ class C03(PropBase):
 
     def random_cases(self, rnd, n):
         for _ in range(n):
-            c = state_case(rnd, removal=True, max_calls=10)
+            c = state_case(rnd, removal=True, max_calls=10, very_long=True)
             ts = gen.probe_instants(tup(c['hist']))
             c['win'] = [tuple(sorted((rnd.choice(ts), rnd.choice(ts)))) for _ in range(3)]
+            w = run_cutting_window(rnd, tup(c['hist']))
+            if w is not None and rnd.random() < 0.5:
+                c['win'][rnd.randrange(3)] = w
             yield c
 
     def program(self, case):
